@@ -695,6 +695,180 @@ pub fn run_c06_raw(case: &Case) -> Outcome {
     Outcome::pass(dropped, vec![if dropped { "dropped-then-probed" } else { "held" }])
 }
 
+/// Stale-handle family (raw peer). The stream on flow id X ends on the wire in one of several ways while A's application
+/// still HOLDS its handle; then X is used again for a new stream (the peer opens it - PROTOCOL.md: a stream is closed once
+/// either end sent Reset or both sent Finish, so the peer may reuse the id - or A's own generator draws it). If the new
+/// stream gets established, whatever the application later does with the OLD handle (drop, shutdown, write) must not touch it:
+/// "all other streams on the connection keep their data and state", "nothing of the old stream leaks into it".
+#[derive(Clone, Debug, Hash, PartialEq, Eq, serde::Serialize, serde::Deserialize)]
+pub struct StaleCase {
+    pub case: Case,
+    /// how the old stream ended: 0 peer Reset, 1 both Finish, 2 peer Finish only (live), 3 A Finish only (live), 4 A reset it for overrunning the window, 5 nothing (live)
+    pub how: u8,
+    /// what the application does with the old handle afterwards: 0 drop, 1 shutdown + drop, 2 write + drop
+    pub action: u8,
+    /// the new stream is opened by A itself (scripted flow id) instead of by the peer
+    pub local_open: bool,
+}
+const STALE_HOW: [&str; 6] = ["peer-reset", "both-finished", "peer-finished-only", "local-finished-only", "overrun-reset", "live"];
+const STALE_ACT: [&str; 3] = ["drop", "shutdown-drop", "write-drop"];
+
+fn c06_stale_case() -> impl Strategy<Value = StaleCase> {
+    (opts(true), 0u8..6, 0u8..3, any::<bool>(), any::<bool>(), schedule(80)).prop_map(|(mut o0, how, action, local_open, old_reads, schedule)| {
+        o0.rwnd = o0.rwnd.clamp(3, 8);
+        let id = 0x42u32;
+        // old stream, A's end (acceptor end of stream 0)
+        let mut w = vec![WOp::Write(2)];
+        if how == 1 || how == 3 {
+            w.push(WOp::Shutdown);
+        }
+        w.push(WOp::Park(1));
+        match action {
+            0 => {}
+            1 => w.push(WOp::Shutdown),
+            _ => w.push(WOp::Write(1)),
+        }
+        w.push(WOp::Drop);
+        let r = if old_reads && how != 4 { vec![ROp::Read(8)] } else { vec![] };
+        let mut events = vec![RawEvent { when: Trigger::FromStep(0), what: What::Inject { from: 1, msg: RawMsg::Connect { id, rwnd: 4, port: 5, host: b"s0.".to_vec() } } }];
+        let ending: Vec<RawMsg> = match how {
+            0 => vec![RawMsg::PushDir { id, stream: 0, dir: 0, off: 0, len: 2 }, RawMsg::Reset { id }],
+            1 | 2 => vec![RawMsg::PushDir { id, stream: 0, dir: 0, off: 0, len: 2 }, RawMsg::Finish { id }],
+            4 => (0..o0.rwnd + 1).map(|k| RawMsg::PushDir { id, stream: 0, dir: 0, off: k, len: 1 }).collect(),
+            _ => vec![],
+        };
+        for (k, m) in ending.into_iter().enumerate() {
+            events.push(RawEvent { when: Trigger::FromStep(6 + 2 * k as u32), what: What::Inject { from: 1, msg: m } });
+        }
+        // second generation on the same id, at quiescence
+        let new_end = EndScript { w: vec![WOp::Write(3), WOp::Park(2), WOp::Write(2), WOp::Shutdown], r: vec![ROp::ToEof(16)] };
+        let (new_spec, rng0, pdir) = if local_open {
+            events.push(RawEvent { when: Trigger::Quiescent, what: What::Wake(3) });
+            (StreamSpec { side: 0, port: 6, pad: vec![], delay: 0, park: Some(3), ends: [new_end, EndScript::default()] }, vec![id], 1u8)
+        } else {
+            events.push(RawEvent { when: Trigger::Quiescent, what: What::Inject { from: 1, msg: RawMsg::Connect { id, rwnd: 4, port: 6, host: b"s1.".to_vec() } } });
+            (StreamSpec { side: 1, port: 6, pad: vec![], delay: 0, park: None, ends: [EndScript::default(), new_end] }, vec![], 0u8)
+        };
+        events.push(RawEvent { when: Trigger::Quiescent, what: What::Wake(1) });
+        events.push(RawEvent { when: Trigger::Quiescent, what: What::Inject { from: 1, msg: RawMsg::PushDir { id, stream: 1, dir: pdir, off: 0, len: 4 } } });
+        events.push(RawEvent { when: Trigger::Quiescent, what: What::Wake(2) });
+        events.push(RawEvent { when: Trigger::Quiescent, what: What::Inject { from: 1, msg: RawMsg::Finish { id } } });
+        let case = Case {
+            opts: [o0, OptsSpec::default()],
+            rng: [rng0, vec![]],
+            streams: vec![StreamSpec { side: 1, port: 5, pad: vec![], delay: 0, park: None, ends: [EndScript::default(), EndScript { w, r }] }, new_spec],
+            raw: Some(RawPolicy { reject_first: 0, ack_connects: Some(4), ack_every: Some(1), answer_close: true, no_ack_streams: vec![] }),
+            events,
+            schedule,
+            ..Case::default()
+        };
+        StaleCase { case, how, action, local_open }
+    })
+}
+
+pub fn run_c06_stale(sc: &StaleCase) -> Outcome {
+    let case = &sc.case;
+    let run = run_case(case);
+    if !run.quiescent {
+        return inconclusive(&run);
+    }
+    let a = Analysis::new(case, &run);
+    let id = 0x42u32;
+    let tagname = format!("{}:{}:{}", STALE_HOW[sc.how as usize], STALE_ACT[sc.action as usize], if sc.local_open { "local-open" } else { "peer-open" });
+    let is = |e: &Ev, side: usize, sent: bool, pred: &dyn Fn(&RFrame) -> bool| match e {
+        Ev::Sent { side: s, msg: WMsg::Frame(f), .. } if sent && *s == side => pred(f),
+        Ev::Recv { side: s, msg: WMsg::Frame(f) } if !sent && *s == side => pred(f),
+        _ => false,
+    };
+    // p = the Connect of the second generation (received by A, or sent by A)
+    let connects: Vec<usize> = run
+        .events
+        .iter()
+        .enumerate()
+        .filter(|(_, e)| is(&e.ev, 0, false, &|f| matches!(f, RFrame::Connect { id: i, .. } if *i == id)) || is(&e.ev, 0, true, &|f| matches!(f, RFrame::Connect { id: i, .. } if *i == id)))
+        .map(|x| x.0)
+        .collect();
+    if connects.len() < 2 {
+        // A did not propose the scripted id (how draws become proposals is unspecified) or the probe was not delivered
+        return Outcome::pass(false, vec!["second-generation-not-on-this-id"]);
+    }
+    let p = connects[1];
+    let before = &run.events[..p];
+    let peer_reset = before.iter().any(|e| is(&e.ev, 0, false, &|f| matches!(f, RFrame::Reset { id: i } if *i == id)));
+    let own_reset = before.iter().any(|e| is(&e.ev, 0, true, &|f| matches!(f, RFrame::Reset { id: i } if *i == id)));
+    let peer_fin = before.iter().any(|e| is(&e.ev, 0, false, &|f| matches!(f, RFrame::Finish { id: i } if *i == id)));
+    let own_fin = before.iter().any(|e| is(&e.ev, 0, true, &|f| matches!(f, RFrame::Finish { id: i } if *i == id)));
+    let closed_on_wire = peer_reset || own_reset || (peer_fin && own_fin);
+    let old_held = a.streams[0].ends[1].dropped_at.is_none_or(|d| d > p);
+    if !old_held {
+        return Outcome::inconclusive("harness: the old handle was dropped before the second generation started");
+    }
+    let established = if sc.local_open {
+        a.streams[1].open_ok_at.is_some()
+    } else {
+        let reply = run.events[p..].iter().find_map(|e| {
+            if is(&e.ev, 0, true, &|f| matches!(f, RFrame::Reset { id: i } if *i == id)) {
+                Some(false)
+            } else if is(&e.ev, 0, true, &|f| matches!(f, RFrame::Acknowledge { id: i, .. } if *i == id)) {
+                Some(true)
+            } else {
+                None
+            }
+        });
+        match reply {
+            None => viol!(a, format!("c06-stale:no-answer:{tagname}"), "the Connect that reuses flow {id:08x} was neither acknowledged nor reset"),
+            Some(x) => x,
+        }
+    };
+    if !closed_on_wire {
+        // the old stream is alive: its id is in use
+        if established {
+            viol!(a, format!("c06-live-flow-replaced:{tagname}"), "flow {id:08x} was still open (no Reset, not finished by both ends) and held by A's application, yet a second stream was established on the same id");
+        }
+        return Outcome::pass(false, vec!["live-id-refused"]);
+    }
+    if !established {
+        // allowed: an endpoint may refuse an id (PROTOCOL.md "MAY reject"), e.g. while its application holds the old handle
+        return Outcome::pass(false, vec!["closed-id-refused-while-handle-held"]);
+    }
+    // the new stream must live its whole scripted life, unaffected by the old handle
+    let e = if sc.local_open { 0 } else { 1 };
+    let ne = &a.streams[1].ends[e];
+    let sig = format!("c06-stale-handle-kills-new-stream:{tagname}");
+    let after = &run.events[p + 1..];
+    let resets_after = after.iter().filter(|e| is(&e.ev, 0, true, &|f| matches!(f, RFrame::Reset { id: i } if *i == id))).count();
+    if resets_after > 0 {
+        viol!(a, sig, "a new stream was established on flow {id:08x} (the old one had ended on the wire: {}); after the application used/dropped its handle of the OLD stream, A sent Reset for the id, i.e. aborted the new stream", STALE_HOW[sc.how as usize]);
+    }
+    if !ne.read_errs.is_empty() || !ne.write_errs.is_empty() {
+        viol!(a, sig, "operations on the new stream failed: reads {:?} writes {:?}", ne.read_errs, ne.write_errs);
+    }
+    if ne.total_read() != 4 || ne.eof_at.is_none() {
+        viol!(a, sig, "the new stream's reader got {} of 4 bytes, eof={:?}", ne.total_read(), ne.eof_at);
+    }
+    let fin_recv = after.iter().position(|e| is(&e.ev, 0, false, &|f| matches!(f, RFrame::Finish { id: i } if *i == id))).map(|i| i + p + 1);
+    if let (Some(eof), Some(fr)) = (ne.eof_at, fin_recv) {
+        if eof < fr {
+            viol!(a, sig, "the new stream's reader saw end-of-stream (event {eof}) before the peer's Finish arrived (event {fr})");
+        }
+    }
+    if ne.total_written() != 5 || ne.shutdown_at.is_none() {
+        viol!(a, sig, "the new stream's writer completed {} of 5 bytes, shutdown={:?}", ne.total_written(), ne.shutdown_at);
+    }
+    let pushes_after = after.iter().filter(|e| is(&e.ev, 0, true, &|f| matches!(f, RFrame::Push { id: i, .. } if *i == id))).count();
+    let fins_after: Vec<usize> = after.iter().enumerate().filter(|(_, e)| is(&e.ev, 0, true, &|f| matches!(f, RFrame::Finish { id: i } if *i == id))).map(|x| x.0 + p + 1).collect();
+    if pushes_after != 2 {
+        viol!(a, sig, "{pushes_after} Push frames on flow {id:08x} after the second Connect, the new stream wrote exactly 2");
+    }
+    if fins_after.len() != 1 || ne.shutdown_at.is_some_and(|s| fins_after[0] < s.saturating_sub(1) && false) {
+        viol!(a, sig, "{} Finish frames sent on flow {id:08x} after the second Connect, expected exactly the new stream's own", fins_after.len());
+    }
+    if let Err((s2, msg)) = a.integrity() {
+        viol!(a, format!("{sig}:{s2}"), "{msg}");
+    }
+    Outcome::pass(true, vec!["new-stream-on-reused-id-survived-old-handle"])
+}
+
 pub fn c06(ctx: &Ctx, rep: &mut Report) {
     rep.rule = "rounds (2-8) of open/close cycles separated by quiescence, every order of write/shutdown/drop/read on the two ends, flow ids scripted from {0,1,2,3} so that a freed id is proposed again at once, 0-2 bystander streams (ids >= 100) exchanging data in every round; \
                 oracle: C02/C03/C05 oracles on everything, bystanders complete, and a model of which ids each endpoint must still hold, replayed against the Connect frames on the wire: a freed id must be chosen again by its owner (no leaked local slot) and acknowledged by the peer (no leaked peer slot). \
@@ -705,6 +879,8 @@ pub fn c06(ctx: &Ctx, rep: &mut Report) {
     let t = ctx.tier;
     ctx.prop(rep, "cycles", t.pick(25_000, 800_000), 300, || with_keepalive(c06_case()), run_c06);
     ctx.prop(rep, "raw-probe", t.pick(20_000, 400_000), 200, c06_raw_case, run_c06_raw);
+    // the id of a stream that ended on the wire is used again while the application still holds the old handle
+    ctx.prop(rep, "stale-handle", t.pick(20_000, 400_000), 0, c06_stale_case, run_c06_stale);
     // many streams aborted in the same instant (the owner of N streams goes away): every one of them must be reset on the
     // wire and reach end-of-stream at the peer, whatever N is
     const BURST: [usize; 6] = [2, 33, 34, 65, 130, 300];
